@@ -175,7 +175,7 @@ SAN = ["-g", "-D_GLIBCXX_DEBUG", "-fsanitize=address,undefined", "-fno-sanitize-
 
 def ensure_harness(kinds, san=False):
     """(re)build seq_<k> from /repo's working tree; returns (ok, log)"""
-    h = file_hash([os.path.join(ROOT, "harness", "seq.cpp")]) + repo_hash()
+    h = file_hash([os.path.join(ROOT, "harness", "seq.cpp"), os.path.join(ROOT, "harness", "common.hpp")]) + repo_hash()
     bind = os.path.join(BUILD, "bin")
     os.makedirs(bind, exist_ok=True)
     procs = []
